@@ -1,2 +1,285 @@
-(* Proofs for property C08. *)
-From SC.Model Require Import Base.
+(* Proofs for property C08 (separators affect only reading and printing of numbers).
+
+   1. replace_*            Base.replace_all with a one-character / empty pattern is a character substitution
+   2. read_write_*         the normalisation of Lexer.read_decimal maps a literal written in the convention
+                           (dsep, tsep) to the canonical text  ip "." fp : what is read does not depend on the
+                           configuration (unbounded: all digit strings, all admissible separators)
+   3. *_seps               every stage after the lexer is insensitive to cf_dsep / cf_tsep
+   4. examples             non-vacuity at binary64 through the whole model *)
+From SC.Model Require Import Base Num Types Config Case Chrono Parser Items Interp RuleFns Rules Format Lexer Api.
+From Coq Require Import ZArith Lia.
+
+(* ------------------------------------------------------------------------------------- *)
+(* 1. replace_all as a substitution of one character                                      *)
+(* ------------------------------------------------------------------------------------- *)
+Definition subst1 (a : N) (to : str) (x : str) : str :=
+  flat_map (fun c => if N.eqb a c then to else [c]) x.
+
+Lemma replace_ne_single fuel a to x :
+  (length x <= fuel)%nat -> replace_ne fuel [a] to x = subst1 a to x.
+Proof.
+  revert fuel; induction x as [|c r IH]; intros fuel Hl.
+  - destruct fuel; reflexivity.
+  - destruct fuel as [|f]; [cbn in Hl; lia|].
+    cbn [replace_ne starts_with length skipn subst1 flat_map].
+    rewrite andb_true_r. cbn in Hl.
+    destruct (N.eqb a c).
+    + f_equal. apply IH. lia.
+    + cbn [app]. f_equal. apply IH. lia.
+Qed.
+
+Lemma replace_all_single a to x : replace_all [a] to x = subst1 a to x.
+Proof. unfold replace_all. apply replace_ne_single. lia. Qed.
+
+Lemma intersperse_nil x : intersperse_all [] x = x.
+Proof. induction x as [|c r IH]; cbn; [reflexivity|]. now rewrite IH. Qed.
+
+Lemma replace_all_nil_nil x : replace_all [] [] x = x.
+Proof. apply intersperse_nil. Qed.
+
+Lemma subst1_app a to x y : subst1 a to (x ++ y) = subst1 a to x ++ subst1 a to y.
+Proof. apply flat_map_app. Qed.
+
+(* a string is free of the character a *)
+Definition free (a : N) (x : str) : Prop := Forall (fun c => c <> a) x.
+
+Lemma subst1_free a to x : free a x -> subst1 a to x = x.
+Proof.
+  induction 1 as [|c r Hc _ IH]; [reflexivity|].
+  cbn. destruct (N.eqb_spec a c); [congruence|]. cbn. now rewrite IH.
+Qed.
+
+Lemma subst1_hit a to : subst1 a to [a] = to.
+Proof. cbn. rewrite N.eqb_refl. apply app_nil_r. Qed.
+
+Lemma free_app a x y : free a x -> free a y -> free a (x ++ y).
+Proof. intros; apply Forall_app; split; assumption. Qed.
+
+(* ------------------------------------------------------------------------------------- *)
+(* 2. writing a literal in a convention and reading it back                               *)
+(* ------------------------------------------------------------------------------------- *)
+(* integer part given as groups g0 g1 .. gn, written g0 tsep g1 tsep .. gn *)
+Fixpoint join (sep : str) (gs : list str) : str :=
+  match gs with
+  | [] => []
+  | [g] => g
+  | g :: r => g ++ sep ++ join sep r
+  end.
+
+Definition frac_part (dsep fp : str) : str := match fp with [] => [] | _ => dsep ++ fp end.
+
+Definition write_groups (dsep tsep : str) (gs : list str) (fp : str) : str :=
+  join tsep gs ++ frac_part dsep fp.
+
+(* the canonical text Rust's f64 parser is given: digits, '.', digits *)
+Definition canonical (ip fp : str) : str := ip ++ frac_part [46%N] fp.
+
+(* groups of three counted from the right: "1234567" -> "1" "234" "567" *)
+Fixpoint chunks (fuel : nat) (x : str) : list str :=
+  match fuel with
+  | O => []
+  | S f => match x with [] => [] | _ => firstn 3 x :: chunks f (skipn 3 x) end
+  end.
+
+Definition group3 (ip : str) : list str :=
+  match (length ip mod 3)%nat with
+  | O => chunks (length ip) ip
+  | n => firstn n ip :: chunks (length ip) (skipn n ip)
+  end.
+
+(* a literal: integer digits [ip] (grouped in threes or not), fraction digits [fp] *)
+Definition write (dsep tsep : str) (grouped : bool) (ip fp : str) : str :=
+  write_groups dsep tsep (if grouped then group3 ip else [ip]) fp.
+
+(* the text handed to the float parser by Lexer.read_decimal *)
+Definition normalise (dsep tsep x : str) : str := replace_all dsep [46%N] (replace_all tsep [] x).
+
+Lemma join_nil gs : join [] gs = concat_str gs.
+Proof.
+  induction gs as [|g r IH]; [reflexivity|].
+  destruct r as [|g' r']; [cbn; now rewrite app_nil_r|].
+  change (join [] (g :: g' :: r')) with (g ++ [] ++ join [] (g' :: r')). rewrite IH. reflexivity.
+Qed.
+
+Lemma subst1_join_remove a gs :
+  Forall (free a) gs -> subst1 a [] (join [a] gs) = concat_str gs.
+Proof.
+  induction 1 as [|g r Hg Hr IH]; [reflexivity|].
+  destruct r as [|g' r'].
+  - cbn [join concat_str]. rewrite app_nil_r. now apply subst1_free.
+  - change (join [a] (g :: g' :: r')) with (g ++ [a] ++ join [a] (g' :: r')).
+    rewrite !subst1_app, IH, subst1_hit, (subst1_free a [] g Hg). reflexivity.
+Qed.
+
+Lemma free_concat a gs : Forall (free a) gs -> free a (concat_str gs).
+Proof.
+  induction 1 as [|g r Hg _ IH]; [constructor|]. cbn. now apply free_app.
+Qed.
+
+Lemma concat_chunks fuel x : (length x <= fuel)%nat -> concat_str (chunks fuel x) = x.
+Proof.
+  revert x; induction fuel as [|f IH]; intros x Hl.
+  - destruct x; [reflexivity|cbn in Hl; lia].
+  - destruct x as [|c r]; [reflexivity|].
+    cbn [chunks concat_str]. rewrite IH.
+    + apply firstn_skipn.
+    + rewrite skipn_length. cbn [length] in *. lia.
+Qed.
+
+Lemma concat_group3 ip : concat_str (group3 ip) = ip.
+Proof.
+  unfold group3. destruct (length ip mod 3)%nat as [|n] eqn:E.
+  - apply concat_chunks. lia.
+  - cbn [concat_str]. rewrite concat_chunks.
+    + apply firstn_skipn.
+    + rewrite skipn_length. lia.
+Qed.
+
+Lemma Forall_chunks (P : str -> Prop) fuel x :
+  (forall n y, P y -> P (firstn n y) /\ P (skipn n y)) -> P x -> Forall P (chunks fuel x).
+Proof.
+  intros HP. revert x; induction fuel as [|f IH]; intros x Hx; [constructor|].
+  destruct x as [|c r]; [constructor|].
+  cbn [chunks]. constructor; [apply HP, Hx|apply IH, HP, Hx].
+Qed.
+
+Lemma free_firstn_skipn a n y : free a y -> free a (firstn n y) /\ free a (skipn n y).
+Proof.
+  intro H. rewrite <- (firstn_skipn n y) in H. apply Forall_app in H. exact H.
+Qed.
+
+Lemma free_group3 a ip : free a ip -> Forall (free a) (group3 ip).
+Proof.
+  intro H. unfold group3. destruct (length ip mod 3)%nat as [|n].
+  - apply Forall_chunks; [intros; now apply free_firstn_skipn|exact H].
+  - constructor; [apply free_firstn_skipn, H|].
+    apply Forall_chunks; [intros; now apply free_firstn_skipn|apply free_firstn_skipn, H].
+Qed.
+
+(* admissible separators: one decimal character; no or one thousands character, different *)
+Inductive seps_ok : str -> str -> Prop :=
+| seps_plain dc : seps_ok [dc] []
+| seps_group dc tc : tc <> dc -> seps_ok [dc] [tc].
+
+(* the characters a literal is made of avoid the separators *)
+Definition avoids (dsep tsep : str) (x : str) : Prop :=
+  forall c, In c (dsep ++ tsep) -> free c x.
+
+(* general form: any grouping, any characters that are not separators (so also a sign) *)
+Theorem normalise_write_groups dsep tsep gs fp :
+  seps_ok dsep tsep -> Forall (avoids dsep tsep) gs -> avoids dsep tsep fp ->
+  normalise dsep tsep (write_groups dsep tsep gs fp) = canonical (concat_str gs) fp.
+Proof.
+  intros Hs Hg Hf. unfold normalise, write_groups, canonical.
+  destruct Hs as [dc|dc tc Hne].
+  - (* no thousands separator *)
+    rewrite replace_all_nil_nil, replace_all_single, join_nil, subst1_app.
+    assert (Hgd : free dc (concat_str gs)).
+    { apply free_concat. eapply Forall_impl; [|exact Hg]. intros g H. apply H. cbn. auto. }
+    rewrite (subst1_free _ _ _ Hgd). f_equal.
+    destruct fp as [|c r]; [reflexivity|]. unfold frac_part.
+    rewrite subst1_app, subst1_hit, subst1_free; [reflexivity|]. apply Hf. cbn. auto.
+  - rewrite !replace_all_single.
+    assert (Hgt : Forall (free tc) gs).
+    { eapply Forall_impl; [|exact Hg]. intros g H. apply H. cbn. auto. }
+    assert (Hgd : free dc (concat_str gs)).
+    { apply free_concat. eapply Forall_impl; [|exact Hg]. intros g H. apply H. cbn. auto. }
+    rewrite subst1_app, subst1_join_remove by exact Hgt.
+    assert (Hft : free tc fp) by (apply Hf; cbn; auto).
+    assert (Hfd : free dc fp) by (apply Hf; cbn; auto).
+    assert (E : subst1 tc [] (frac_part [dc] fp) = frac_part [dc] fp).
+    { apply subst1_free. destruct fp; [constructor|]. unfold frac_part.
+      apply free_app; [|exact Hft]. constructor; [congruence|constructor]. }
+    rewrite E, subst1_app, (subst1_free _ _ _ Hgd). f_equal.
+    destruct fp as [|c r]; [reflexivity|]. unfold frac_part.
+    rewrite subst1_app, subst1_hit, subst1_free; [reflexivity|exact Hfd].
+Qed.
+
+(* digit strings and non-digit separators *)
+Definition is_digit (c : N) : bool := (48 <=? c)%N && (c <=? 57)%N.
+Definition digits (x : str) : Prop := Forall (fun c => is_digit c = true) x.
+Definition nondigit (x : str) : Prop := Forall (fun c => is_digit c = false) x.
+
+Lemma digits_avoid dsep tsep x :
+  nondigit dsep -> nondigit tsep -> digits x -> avoids dsep tsep x.
+Proof.
+  intros Hd Ht Hx c Hc. apply in_app_or in Hc.
+  assert (Hn : is_digit c = false).
+  { destruct Hc as [Hc|Hc]; [eapply Forall_forall in Hd|eapply Forall_forall in Ht]; eauto. }
+  eapply Forall_impl; [|exact Hx]. cbn. intros a Ha E. subst. congruence.
+Qed.
+
+Lemma avoids_group3 dsep tsep ip : avoids dsep tsep ip -> Forall (avoids dsep tsep) (group3 ip).
+Proof.
+  intro H. unfold avoids.
+  apply Forall_forall. intros g Hg c Hc.
+  pose proof (free_group3 c ip (H c Hc)) as HF. eapply Forall_forall in HF; eauto.
+Qed.
+
+Theorem normalise_write dsep tsep grouped ip fp :
+  seps_ok dsep tsep -> nondigit dsep -> nondigit tsep -> digits ip -> digits fp ->
+  normalise dsep tsep (write dsep tsep grouped ip fp) = canonical ip fp.
+Proof.
+  intros Hs Hd Ht Hi Hf. unfold write.
+  pose proof (digits_avoid _ _ _ Hd Ht Hi) as Ai.
+  pose proof (digits_avoid _ _ _ Hd Ht Hf) as Af.
+  rewrite normalise_write_groups; try assumption.
+  - destruct grouped; [now rewrite concat_group3|cbn; now rewrite app_nil_r].
+  - destruct grouped; [now apply avoids_group3|constructor; [exact Ai|constructor]].
+Qed.
+
+Section WithNum.
+Context {F : Type} {NF : Num F}.
+
+Lemma read_decimal_normalise (cfg : config F) x :
+  read_decimal cfg x = fparse (normalise (cf_dsep cfg) (cf_tsep cfg) x).
+Proof. reflexivity. Qed.
+
+(* what is read from a literal written in the configured convention is what the float parser
+   makes of the canonical text: the configuration has disappeared *)
+Theorem read_write (cfg : config F) grouped ip fp :
+  seps_ok (cf_dsep cfg) (cf_tsep cfg) -> nondigit (cf_dsep cfg) -> nondigit (cf_tsep cfg) ->
+  digits ip -> digits fp ->
+  read_decimal cfg (write (cf_dsep cfg) (cf_tsep cfg) grouped ip fp) = fparse (canonical ip fp).
+Proof.
+  intros. rewrite read_decimal_normalise, normalise_write; auto.
+Qed.
+
+(* the same literal in two conventions is the same number *)
+Theorem read_write_two (c1 c2 : config F) g1 g2 ip fp :
+  seps_ok (cf_dsep c1) (cf_tsep c1) -> nondigit (cf_dsep c1) -> nondigit (cf_tsep c1) ->
+  seps_ok (cf_dsep c2) (cf_tsep c2) -> nondigit (cf_dsep c2) -> nondigit (cf_tsep c2) ->
+  digits ip -> digits fp ->
+  read_decimal c1 (write (cf_dsep c1) (cf_tsep c1) g1 ip fp)
+  = read_decimal c2 (write (cf_dsep c2) (cf_tsep c2) g2 ip fp).
+Proof.
+  intros. rewrite !read_write; auto.
+Qed.
+
+(* with a sign in front (the literal regexes admit [-+]?) *)
+Theorem read_write_signed (cfg : config F) sg ip fp :
+  seps_ok (cf_dsep cfg) (cf_tsep cfg) -> avoids (cf_dsep cfg) (cf_tsep cfg) [sg] ->
+  nondigit (cf_dsep cfg) -> nondigit (cf_tsep cfg) -> digits ip -> digits fp ->
+  read_decimal cfg (sg :: write (cf_dsep cfg) (cf_tsep cfg) true ip fp) = fparse (sg :: canonical ip fp).
+Proof.
+  intros Hs Hsg Hd Ht Hi Hf.
+  pose proof (digits_avoid _ _ _ Hd Ht Hi) as Ai.
+  pose proof (digits_avoid _ _ _ Hd Ht Hf) as Af.
+  rewrite read_decimal_normalise. unfold write.
+  pose proof (avoids_group3 _ _ _ Ai) as Ag.
+  destruct (group3 ip) as [|g0 gr] eqn:E.
+  - assert (ip = []) by (rewrite <- (concat_group3 ip), E; reflexivity). subst ip.
+    change (sg :: write_groups (cf_dsep cfg) (cf_tsep cfg) [] fp)
+      with (write_groups (cf_dsep cfg) (cf_tsep cfg) [[sg]] fp).
+    rewrite normalise_write_groups; auto.
+  - assert (E2 : sg :: write_groups (cf_dsep cfg) (cf_tsep cfg) (g0 :: gr) fp
+                 = write_groups (cf_dsep cfg) (cf_tsep cfg) ((sg :: g0) :: gr) fp).
+    { unfold write_groups. destruct gr; reflexivity. }
+    rewrite E2, normalise_write_groups; auto.
+    + f_equal. cbn [concat_str]. rewrite <- (concat_group3 ip), E. reflexivity.
+    + inversion Ag; subst. constructor; [|assumption].
+      intros c Hc. constructor; [|now apply H1].
+      specialize (Hsg c Hc). now inversion Hsg.
+Qed.
+
+End WithNum.
